@@ -76,7 +76,8 @@ def parse(path):
         flush()
         start_line = ln
         if d in ('verbatim', 'inside', 'root'):
-            cur_item = None
+            if d != 'inside':
+                cur_item = None
             cur_kind = d
         elif d == 'item':
             # //@ item <file> :: <selector> [key=value ...]
